@@ -128,6 +128,19 @@ func genC20(r *Rng, e *Emitter, n int) {
 			thr *= sc
 			e.tally("scaled")
 		}
+		if r.chance(1, 40) && len(flat) >= 4 {
+			// a call outside the contract (a stride that does not fit the data) may panic; the caller
+			// recovers and goes on: the calls after it are as good as ever
+			func() {
+				defer func() { _ = recover() }()
+				xy.SimplifyFlatCoords(flat, thr, 1)
+			}()
+			func() {
+				defer func() { _ = recover() }()
+				xy.SimplifyFlatCoords(flat[:len(flat)-1], thr, stride)
+			}()
+			e.tally("after-a-recovered-panic")
+		}
 		e.tally(fmt.Sprintf("stride=%d", stride))
 		e.tally(fmt.Sprintf("shape=%d", shape))
 		if thr == 0 {
